@@ -69,6 +69,7 @@ func (e *Engine) verifyFunc(key string) (res *FnResult) {
 		}
 		res.Obls = obls
 	}()
+	e.resetDecls()
 	c.escaping = escapingLocals(fi.Body, fi.Pkg.TypesInfo, e.d)
 	st := newState()
 	sig := fi.Sig
@@ -119,7 +120,7 @@ func (e *Engine) verifyFunc(key string) (res *FnResult) {
 	// vacuity: the preconditions must be satisfiable
 	if len(fc.Requires) > 0 {
 		o := &Obligation{Name: "cover:requires", Fn: key, Kind: "cover", Desc: "preconditions are satisfiable (vacuity guard)", Pos: c.pos(fi.Body.Pos()),
-			Assumps: append([]string(nil), st.path...), Goal: "false", ExpectSat: true}
+			Assumps: append([]string(nil), st.path...), Goal: "false", ExpectSat: true, D: e.d}
 		obls = append(obls, o)
 	}
 	entrySnap = st.clone()
@@ -153,7 +154,7 @@ func (e *Engine) verifyFunc(key string) (res *FnResult) {
 	for i, cs := range fc.CallSites {
 		if !c.matchedCallSites[i] {
 			obls = append(obls, &Obligation{Name: fmt.Sprintf("callsite-present:%s/assert%d", lastSeg(cs.Callee), i+1), Fn: key, Kind: "callsite",
-				Desc: "the call this assertion is attached to exists on some path: " + cs.Src, Pos: c.pos(fi.Body.Pos()), Goal: "false", Watch: map[string]string{}})
+				Desc: "the call this assertion is attached to exists on some path: " + cs.Src, Pos: c.pos(fi.Body.Pos()), Goal: "false", Watch: map[string]string{}, D: e.d})
 		}
 	}
 	if nexit == 0 && len(fc.Ensures) > 0 {
@@ -213,7 +214,7 @@ func (c *FnCtx) checkExit(o Outcome, fc *FuncContract, entry *State) {
 	c.applyGhostUpdates(st, fc, sc)
 	for i, en := range fc.Ensures {
 		for _, cj := range sc.evalConjuncts(en.E, "") {
-			c.oblige(st, "post", fmt.Sprintf("ensures%d%s", i+1, cj.Path), c.fi.Body.End(), cj.Term.S, "postcondition: "+cj.Src)
+			c.oblige(st, "post", fmt.Sprintf("ensures%d%s%s", i+1, cj.Path, c.exitTag(o)), c.fi.Body.End(), cj.Term.S, "postcondition: "+cj.Src)
 		}
 	}
 	c.checkFrame(st, fc, entry, sc)
@@ -356,15 +357,11 @@ func (c *FnCtx) frameDesignators(k string, fc *FuncContract, sc *SpecCtx, entry 
 		if !ok {
 			panic(toolErr("modifies %q: bad designator", m))
 		}
-		if id, ok := f.X.(*SIdent); ok {
-			if _, bound := sc.env[id.Name]; !bound {
-				if n := sc.lookupTypeName(id.Name); n != nil {
-					if k == fieldKey(n, f.Name) {
-						return true, nil, nil
-					}
-					continue
-				}
+		if n := sc.typeDesignator(f.X); n != nil {
+			if k == fieldKey(n, f.Name) {
+				return true, nil, nil
 			}
+			continue
 		}
 		base := psc.eval(f.X)
 		if n, _, isPtr := derefNamedStruct(base.T); n != nil && isPtr && k == fieldKey(n, f.Name) {
